@@ -72,11 +72,11 @@ func checkC11(ck *Check) {
 		}
 	}
 	_ = guarded
-	ck.floor("C11.R1", "sites examined for the dry-mode guard (action calls + reaper appends)", examined, 5)
+	ck.floor("C11.R1", "sites examined for the dry-mode guard (action calls + reaper appends)", examined, 3)
 
 	// R2: layering
 	ck.layeringL0("C11.R2", nil)
-	ck.floor("C11.R2", "external write sites", len(a.W), 7)
+	ck.floor("C11.R2", "external write sites", len(a.W), 5)
 
 	// R3: the predicate and its fields
 	ck.dryPredicate("C11.R3")
@@ -596,16 +596,43 @@ func (ck *Check) emptinessShape(rule string) {
 				// edges: 0 init; inside: ph or ph+1, +1 exactly under ¬PodIsDaemonSet(elem)
 				okCounter := true
 				incs := 0
+				var initVals []ssa.Value
 				for i, e := range ph.Edges {
 					pred := ph.Block().Preds[i]
 					if !l.Blocks[pred] {
-						if k, ok := e.(*ssa.Const); !ok || k.Int64() != 0 {
-							okCounter = false
-							why = append(why, "counter does not start at 0")
-						}
+						initVals = append(initVals, e)
 						continue
 					}
 					ck.counterEdge(ctx, l, ph, e, &incs, &okCounter, &why)
+				}
+				// initial value: 0 when counting the non-daemonset pods up, len(pods) when counting the
+				// daemonset pods down
+				down := false
+				for _, e2 := range ph.Edges {
+					if bo, ok := e2.(*ssa.BinOp); ok && bo.Op.String() == "-" {
+						down = true
+					}
+					if p2, ok := e2.(*ssa.Phi); ok {
+						for _, e3 := range p2.Edges {
+							if bo, ok := e3.(*ssa.BinOp); ok && bo.Op.String() == "-" {
+								down = true
+							}
+						}
+					}
+				}
+				for _, iv := range initVals {
+					if !down {
+						if k, ok := iv.(*ssa.Const); !ok || k.Int64() != 0 {
+							okCounter = false
+							why = append(why, "counter does not start at 0")
+						}
+					} else {
+						lc, ok := isBuiltinCall(iv, "len")
+						if !ok || ctx.Term(lc.Common().Args[0]).Key() != ctx.Term(l.Over).Key() {
+							okCounter = false
+							why = append(why, "a counter that is decremented per daemonset pod must start at len(pods)")
+						}
+					}
 				}
 				// ranged over nodeInfo.Pods() of the map entry for node.Name
 				over := ctx.Term(l.Over)
@@ -687,13 +714,37 @@ func (ck *Check) emptinessShape(rule string) {
 		for _, ci := range callsTo(a.Scan, fn) {
 			t := sctx.Term(ci.Common().Args[0])
 			got = t.String()
-			if t.Kind == "extract" && t.Name == "0" && t.Args[0].Kind == "invoke" && t.Args[0].Name == "List" {
-				recv := t.Args[0].Args[0]
-				root, path := recv.fieldPath()
-				g := ck.groupTerm(a.Scan)
-				if g != nil && root.Key() == g.Key() && len(path) >= 1 && path[len(path)-1] == "Pods" {
-					okBind = true
+			// the pod list may reach the scan body through a listing helper: look at what it returns
+			cands := []*Term{t}
+			if t.Kind == "extract" && len(t.Args) == 1 && t.Args[0].Kind == "call" && t.Args[0].Fn != nil && ck.P.inRepo(t.Args[0].Fn) && t.Args[0].Fn.Blocks != nil {
+				cands = nil
+				idx := 0
+				fmt.Sscan(t.Name, &idx)
+				ch := sctx.childTerm(t.Args[0])
+				ch.depth = 0
+				for _, b := range t.Args[0].Fn.Blocks {
+					if r, ok := b.Instrs[len(b.Instrs)-1].(*ssa.Return); ok && idx < len(r.Results) {
+						if rt := ch.Term(r.Results[idx]); !(rt.Kind == "const" && rt.Name == "nil") {
+							cands = append(cands, rt)
+						}
+					}
 				}
+			}
+			all := len(cands) > 0
+			for _, t := range cands {
+				one := false
+				if t.Kind == "extract" && t.Name == "0" && t.Args[0].Kind == "invoke" && t.Args[0].Name == "List" {
+					recv := t.Args[0].Args[0]
+					root, path := recv.fieldPath()
+					g := ck.groupTerm(a.Scan)
+					if g != nil && root.Key() == g.Key() && len(path) >= 1 && path[len(path)-1] == "Pods" {
+						one = true
+					}
+				}
+				all = all && one
+			}
+			if all {
+				okBind = true
 			}
 		}
 		ck.cond(okBind, rule, "scan/info-map-pods", "", funcID(a.Scan), "the node-info map is built from the scanned group's own pod list", got, "")
@@ -741,6 +792,29 @@ func (ck *Check) counterEdge(ctx *Ctx, l *Loop, ph *ssa.Phi, e ssa.Value, incs *
 					*okp = false
 					*why = append(*why, "increment condition is not exactly ¬PodIsDaemonSet(pod): "+pc.String())
 				}
+				return
+			}
+			// count-down form: the counter starts at len(pods) and loses one exactly under PodIsDaemonSet(pod)
+			if k, ok := x.Y.(*ssa.Const); ok && x.Op.String() == "-" && k.Int64() == 1 && x.X == ssa.Value(ph) {
+				*incs++
+				pc := ctx.PC(x)
+				var dsAtom *Term
+				for _, at := range pc.Atoms() {
+					if at.Kind == "call" && strings.HasSuffix(at.Name, "PodIsDaemonSet") && isElemOf(at.Args[0], func(t *Term) bool { return true }) {
+						dsAtom = at
+					}
+				}
+				body := And(ctx.BlockPC(l.Header), ctx.edgeCond(l.Header, l.Header.Succs[0]))
+				if dsAtom == nil {
+					*okp = false
+					*why = append(*why, "decrement is not guarded by a PodIsDaemonSet test on the loop element")
+					return
+				}
+				if eq, _, _ := Equivalent(pc, And(body, Atom(dsAtom))); !eq {
+					*okp = false
+					*why = append(*why, "decrement condition is not exactly PodIsDaemonSet(pod): "+pc.String())
+				}
+				// the matching initial value (len of the ranged list) is checked by the caller
 				return
 			}
 			*okp = false
@@ -816,7 +890,7 @@ func (ck *Check) restartInvariance(rule string) {
 		n++
 		ck.cond(dominatesInstr(store, ci), rule, ck.P.siteKey(ci)+"/after-map-rebuild", ck.P.instrPos(ci), funcID(a.Scan), "NodeInfoMap is rebuilt from this scan's lists before any call that can reach the delete step", "store at "+ck.P.instrPos(store), "a reaper can run on the previous scan's pod map")
 	}
-	ck.floor(rule, "calls in the scan body that reach the delete step", n, 3)
+	ck.floor(rule, "calls in the scan body that reach the delete step", n, 1)
 }
 
 // ---------------------------------------------------------------------------------------------
@@ -1118,6 +1192,34 @@ func (ck *Check) listOrigin(t *Term) string {
 	if !ok {
 		return "?"
 	}
+	// a list handed out by a helper of the scan body (e.g. one that lists pods and nodes): every
+	// non-nil value the helper can return for that result must have the same origin
+	if t.Kind == "extract" && len(t.Args) == 1 && t.Args[0].Kind == "call" && t.Args[0].Fn != nil && ck.P.inRepo(t.Args[0].Fn) && t.Args[0].Fn.Blocks != nil && t.Args[0].Fn != ck.A.Filter {
+		h := t.Args[0].Fn
+		idx := 0
+		fmt.Sscan(t.Name, &idx)
+		ch := ck.P.NewCtx(ck.A.Scan).childTerm(t.Args[0])
+		ch.depth = 0
+		origin := ""
+		for _, b := range h.Blocks {
+			r, ok := b.Instrs[len(b.Instrs)-1].(*ssa.Return)
+			if !ok || idx >= len(r.Results) {
+				continue
+			}
+			rt := ch.Term(r.Results[idx])
+			if rt.Kind == "const" && rt.Name == "nil" {
+				continue
+			}
+			o := ck.listOrigin(rt)
+			if origin != "" && o != origin {
+				return "?"
+			}
+			origin = o
+		}
+		if origin != "" {
+			return origin
+		}
+	}
 	ctx := ck.P.NewCtx(ck.A.Scan)
 	ft := ctx.Term(fcall)
 	if t.Kind == "extract" && t.Args[0].Key() == ft.Key() {
@@ -1141,6 +1243,40 @@ func (ck *Check) listOrigin(t *Term) string {
 func (ck *Check) nodeOrigin(fn *ssa.Function, v ssa.Value) ([]string, string) {
 	ctx := ck.P.NewCtx(fn)
 	t := ctx.Term(v)
+	// the node is a parameter of a helper around the write: its origins are those of the actual
+	// argument at every static call site
+	if p, ok := v.(*ssa.Parameter); ok {
+		idx := -1
+		for i, q := range fn.Params {
+			if q == p {
+				idx = i
+			}
+		}
+		var out []string
+		how := ""
+		n := 0
+		for _, cf := range ck.P.callers[fn] {
+			sites := callsTo(cf, fn)
+			if len(sites) == 0 {
+				return nil, funcID(fn) + " is also entered dynamically from " + funcID(cf)
+			}
+			for _, ci := range sites {
+				n++
+				if idx < 0 || idx >= len(ci.Common().Args) {
+					return nil, "argument not found"
+				}
+				o, h := ck.nodeOrigin(cf, ci.Common().Args[idx])
+				if len(o) == 0 {
+					return nil, h
+				}
+				out = append(out, o...)
+				how = h
+			}
+		}
+		if n > 0 {
+			return out, how
+		}
+	}
 	// bundle.node where bundle = elem(sorted)
 	listTerm, why := ck.elemSourceList(fn, ctx, v)
 	if listTerm == nil {
